@@ -228,6 +228,28 @@ def infer_printed_type(t):
     
     """
     from logic.context import Context
+    from logic import logic
+    from data import list
+    from data import set
+    from data import function
+    from data import interval
+    from syntax import operator
+
+    def printed_without_head(t):
+        """Whether the combination t is printed in a special syntax that
+        does not show its head constant (see pprint.get_ast_term)."""
+        op_data = operator.get_info_for_fun(t.head)
+        if op_data is not None:
+            if op_data.arity == operator.BINARY and t.is_binop():
+                return True
+            if op_data.arity == operator.UNARY and len(t.args) == 1:
+                return True
+        if operator.get_binder_info_for_fun(t.head) is not None and \
+           len(t.args) == 1 and t.arg.is_abs():
+            return True
+        if t.is_comb('collect', 1) and t.arg.is_abs():
+            return True
+        return logic.is_if(t) or function.is_fun_upd(t) or interval.is_interval(t)
 
     def clear_const_type(t):
         if t.is_const() and not hasattr(t, "print_type"):
@@ -282,8 +304,22 @@ def infer_printed_type(t):
                         to_replaceT = t.var_T
                 find_to_replace(t.body)
             elif t.is_comb():
-                find_to_replace(t.fun)
-                find_to_replace(t.arg)
+                # Only look at positions where the printer can attach a type:
+                # the head constant of an operator, binder or other special
+                # syntax (and the end of a nonempty literal list or set) is
+                # not printed, its type is determined by the arguments.
+                if list.is_literal_list(t):
+                    for item in list.dest_literal_list(t):
+                        find_to_replace(item)
+                elif set.is_literal_set(t):
+                    for item in set.dest_literal_set(t):
+                        find_to_replace(item)
+                elif printed_without_head(t):
+                    for arg in t.args:
+                        find_to_replace(arg)
+                else:
+                    find_to_replace(t.fun)
+                    find_to_replace(t.arg)
 
         find_to_replace(t)
         recover_const_type(t)
